@@ -24,10 +24,16 @@ special parameter classes with some automatic functionality
 """
 
 import re
+import threading
 from frappy.core import Parameter, Property
 from frappy.datatypes import BoolType, DataType, DataTypeType, EnumType, \
     FloatRange, StringType, StructOf, ValueType
 from frappy.errors import ProgrammingError
+
+
+class AccessDepth(threading.local):
+    """nesting depth of the accesses of the current thread"""
+    value = 0
 
 
 class StructParam(Parameter):
@@ -57,8 +63,6 @@ class StructParam(Parameter):
     hasStructRW = Property('has a read_<struct param> or write_<struct param> method',
                            BoolType(), default=False)
 
-    insideRW = 0  # counter for avoiding multiple superfluous updates
-
     def __init__(self, description=None, paramdict=None, prefix='', *, datatype=None, readonly=False, **kwds):
         """create a struct parameter together with individual parameters
 
@@ -75,6 +79,10 @@ class StructParam(Parameter):
             datatype = StructOf(**{m: p.datatype for m, p in paramdict.items()})
             kwds['influences'] = [p.name for p in paramdict.values()]
         self.updateEnable = {}
+        # counter for avoiding multiple superfluous updates. it is kept per thread: the accesses are
+        # guarded by different locks (accessLock, updateLock), and an update of a member done by
+        # an other thread in the meantime must still reach the struct
+        self.insideRW = AccessDepth()
         if paramdict:
             kwds['paramdict'] = paramdict
         super().__init__(description, datatype, readonly=readonly, **kwds)
@@ -125,13 +133,13 @@ class StructParam(Parameter):
                     pobj = self.parameters[name]
                     result = {}
                     # disable updates generated from the callbacks of individual params
-                    pobj.insideRW += 1   # guarded by self.accessLock
+                    pobj.insideRW.value += 1
                     try:
                         for m, f in flist:
                             result[m] = getattr(self, f)()
                         return result
                     finally:
-                        pobj.insideRW -= 1
+                        pobj.insideRW.value -= 1
                         if len(result) < len(flist):
                             # failed in between: the members treated so far have changed
                             setattr(self, name, dict(getattr(self, name), **result))
@@ -144,13 +152,13 @@ class StructParam(Parameter):
                         (m, f'write_{p.name}') for m, p in self.paramdict.items())):
                     pobj = self.parameters[name]
                     result = {}
-                    pobj.insideRW += 1  # guarded by self.accessLock
+                    pobj.insideRW.value += 1
                     try:
                         for m, f in funclist:
                             result[m] = getattr(self, f)(value[m])
                         return result
                     finally:
-                        pobj.insideRW -= 1
+                        pobj.insideRW.value -= 1
                         if len(result) < len(funclist):
                             # failed in between: the members treated so far have changed
                             setattr(self, name, dict(getattr(self, name), **result))
@@ -168,18 +176,18 @@ class StructParam(Parameter):
             # the members and an update of a member goes to the struct. insideRW avoids
             # that the update triggered by a callback is sent back again
             def struct_cb(value, modobj=modobj, structparam=self):
-                structparam.insideRW += 1
+                structparam.insideRW.value += 1
                 try:
                     for membername, param in structparam.paramdict.items():
                         setattr(modobj, param.name, value[membername])
                 finally:
-                    structparam.insideRW -= 1
+                    structparam.insideRW.value -= 1
 
             modobj.addCallback(self.name, struct_cb)
 
             for membername, param in self.paramdict.items():
                 def cb(value, modobj=modobj, structparam=self, membername=membername):
-                    if not structparam.insideRW:
+                    if not structparam.insideRW.value:
                         prev = dict(getattr(modobj, structparam.name))
                         prev[membername] = value
                         setattr(modobj, structparam.name, prev)
